@@ -382,6 +382,129 @@ def rule_r4(repo):
     return rr
 
 
+# ---------------------------------------------------------------------------
+# thorough tier: every sequence of every bundled Table D
+def _bundled_tables(root):
+    import glob
+    import os
+    base = os.path.join(root, 'pybufrkit', 'tables')
+    out = []
+    for f in sorted(glob.glob(os.path.join(base, '*', '*', '*', 'TableD.json'))):
+        parts = f.split(os.sep)
+        master, centre, version = parts[-4], parts[-3], parts[-2]
+        out.append((master, centre, version, os.path.dirname(f)))
+    return out
+
+
+def _expand_reference(data, sid, depth=0):
+    """Direct expansion of a Table D entry from the table contents: sequences replaced by their members, recursively."""
+    if depth > 30:
+        raise AnalysisError('Table D entry %s nests deeper than 30 levels (cycle?)' % sid)
+    out = []
+    for m in data[sid][1]:
+        i = int(m)
+        key = '%06d' % i
+        if i >= 300000 and key in data:
+            out.extend(_expand_reference(data, key, depth + 1))
+        else:
+            out.append(i)
+    return out
+
+
+def _bundled_worker(job):
+    import json
+    import os
+    root, wmo_dir, local_dir, label = job
+    from sa.model import Repo
+    repo = Repo(root)
+    datas = []
+    b_defined = set()
+    for d in (wmo_dir, local_dir):
+        if d is None:
+            continue
+        with open(os.path.join(d, 'TableD.json')) as f:
+            datas.append(json.load(f))
+        bf = os.path.join(d, 'TableB.json')
+        if os.path.exists(bf):
+            with open(bf) as f:
+                b_defined |= set(int(k) for k in json.load(f))
+    merged = {}
+    for d in datas:
+        merged.update(d)
+    init = repo.own_method('TableD', '__init__')
+    fm = repo.func('descriptors', 'flat_member_ids')
+
+    class TD(BuildInterp):
+        LIST_CAP = 5000
+        MAX_STEPS = 50000000
+        UNROLL_CAP = 5000
+
+        def on_call(self2, text, callee, args, kwargs, node, frame):
+            if text == 'self.load_json_files' or (isinstance(callee, FuncRef) and callee.fi.name == 'load_json_files'):
+                return [dict(d) for d in datas]
+            if isinstance(callee, UnknownMethod) and callee.name == '__init__':
+                return None
+            return BuildInterp.on_call(self2, text, callee, args, kwargs, node, frame)
+    it = TD(repo, 'TableD')
+    res = it.run_function(init, lambda: {'self': Obj('TableD', {}), 'b': Table('B', b_defined), 'c': Table('C', ()), 'r': Table('R', ()), 'args': ('K',), 'kwargs': {}},
+                          self_class='TableD')
+    oks = [r for r in res if r.ok]
+    if len(oks) != 1:
+        return label, 0, [('load', '', 'TableD.__init__ on the bundled table %s: %s' % (label, [r.describe() for r in res][:3]))]
+    descs = oks[0].locals['self'].fields.get('descriptors')
+    bad = []
+    n = 0
+    if not isinstance(descs, dict) or set(descs) != set(int(k) for k in merged):
+        return label, 0, [('load', '', 'TableD.__init__ on %s registers %d sequences, the table files define %d' % (label, len(descs) if isinstance(descs, dict) else -1, len(merged)))]
+    it2 = TD(repo, None)
+    for key in sorted(merged):
+        n += 1
+        want = _expand_reference(merged, key)
+        r2 = it2.run_function(fm, lambda: {'descriptor': descs[int(key)]})
+        got = r2[0].value if len(r2) == 1 and r2[0].ok else [x.describe() for x in r2]
+        if got != want:
+            bad.append(('expansion', key, 'sequence %s of %s flattens to %s...; the table file expands to %s...' % (key, label, str(got)[:160], str(want)[:160])))
+            if len(bad) > 5:
+                break
+    return label, n, bad
+
+
+def rule_bundled(repo):
+    """Thorough tier.  TableD.__init__ is folded on the contents of every bundled Table D (the table files are read by the analyser as
+    data, like the section layouts), then descriptors.flat_member_ids on every sequence it built, against a direct recursive expansion
+    of the file."""
+    import multiprocessing
+    import os
+    rr = RuleResult('C14.R9', 'every sequence of every bundled Table D: built tree flattens to the direct expansion of the table file')
+    if not os.path.isdir(os.path.join(repo.root, 'pybufrkit', 'tables')):
+        # a scratch copy made without the data tables (self-validation): nothing to fold
+        rr.note('no tables directory under %s: rule not applicable to this copy' % repo.root)
+        return rr
+    tabs = _bundled_tables(repo.root)
+    if len(tabs) < 10:
+        raise AnalysisError('only %d bundled Table D files found under %s' % (len(tabs), repo.root))
+    wmo = dict((v, d) for m, c, v, d in tabs if c == '0_0')
+    jobs = []
+    for m, c, v, d in tabs:
+        if c == '0_0':
+            jobs.append((repo.root, d, None, 'master %s version %s' % (m, v)))
+        else:
+            # local tables are loaded on top of a master version: folded with the oldest and the newest bundled one
+            for mv in sorted(wmo, key=int)[:1] + sorted(wmo, key=int)[-1:]:
+                jobs.append((repo.root, wmo[mv], d, 'centre %s local version %s on master version %s' % (c, v, mv)))
+    with multiprocessing.Pool(min(16, len(jobs))) as pool:
+        results = pool.map(_bundled_worker, jobs)
+    total = 0
+    for label, n, bad in results:
+        total += n
+        rr.instance('%s: %d sequences' % (label, n))
+        for kind, key, msg in bad[:3]:
+            rr.fail('bundled-table-d:%s' % kind, 'pybufrkit/tables.py', msg, witness={'table': label, 'sequence': key})
+    rr.extra = {'sequences_folded': total, 'tables': len(jobs)}
+    rr.require_floor(10)
+    return rr
+
+
 class FsInterp(Interp):
     def __init__(self, repo, dirs):
         Interp.__init__(self, repo, None)
@@ -467,6 +590,8 @@ def run(repo, check):
     for f in r7.findings:
         f.rule = 'C14.R7'
     check.add(r7)
+    if check.tier == 'thorough':
+        check.run_rule(rule_bundled, repo)
     from sa.rules import c13 as _c13
     from sa.rules.common import share as _sh
     _sh(check, repo, _c13.rule_r7, 'C14.R8', 'table entries are not pooled across table versions: no module-level state (shared with C13.R7)')
